@@ -211,12 +211,13 @@ impl<'a> Cx<'a> {
         let Some(mc) = self.atomic_call(e) else { return Ok(None) };
         let args: Vec<&Expr> = mc.args.iter().collect();
         match (mc.method.to_string().as_str(), &args[..]) {
-            ("store", [v, o]) => match self.reg_offset(v) {
-                Some((minus, k)) => {
+            ("store", [v, o]) => match (self.reg_offset(v), int(v)) {
+                (Some((minus, k)), _) => {
                     let c = if minus { "storeOldMinus" } else { "storeOldPlus" };
                     Ok(Some((format!(".{c} {k} {}", self.ord(o)?), e.span())))
                 }
-                None => self.bad("stored value", v.span()),
+                (None, Some(lit)) => Ok(Some((format!(".storeLit {lit} {}", self.ord(o)?), e.span()))),
+                (None, None) => self.bad("stored value (expected `<old> ± k` or a literal)", v.span()),
             },
             // `A.fetch_sub(n, ord);` / `A.fetch_add(n, ord);` with the result discarded
             (m @ ("fetch_sub" | "fetch_add"), [n, o]) => match int(n) {
@@ -274,6 +275,30 @@ impl<'a> Cx<'a> {
         }
         let Some(r) = self.tail(last) else { return self.bad("end of branch arm", last.span()) };
         Ok((format!("[{}]", simples.join(", ")), self.ret(r)?))
+    }
+
+    /// `if <old> <cmp> c { simple; …; return r; }` without `else`, not in tail position:
+    /// an early return.
+    fn guard(&mut self, i: &syn::ExprIf) -> R<()> {
+        let Some((l, op, r)) = bin(&i.cond) else { return self.bad("condition", i.cond.span()) };
+        let cmp = match op {
+            BinOp::Eq(_) => ".eq",
+            BinOp::Ne(_) => ".ne",
+            BinOp::Lt(_) => ".lt",
+            BinOp::Le(_) => ".le",
+            _ => return self.bad("comparison", i.cond.span()),
+        };
+        if !self.is_reg(l) {
+            return self.bad("condition operand of an early return (expected the value last read)", l.span());
+        }
+        let bound = self.bound(r)?;
+        match i.then_branch.stmts.last() {
+            Some(Stmt::Expr(Expr::Return(_), Some(_))) => {}
+            _ => return self.bad("`if` without `else` that does not end in `return …;`", i.if_token.span),
+        }
+        let (ts, tr) = self.arm(&i.then_branch)?;
+        self.push(format!(".guard {cmp} {bound} {ts} {tr}"), i.if_token.span);
+        Ok(())
     }
 
     fn branch(&mut self, i: &syn::ExprIf) -> R<()> {
@@ -424,6 +449,9 @@ impl<'a> Cx<'a> {
                     self.branch(i)?;
                     return Ok(self.rows);
                 }
+                Stmt::Expr(Expr::If(i), _) if !last && i.attrs.is_empty() && i.else_branch.is_none() => {
+                    self.guard(i)?
+                }
                 _ if last && self.tail(s).is_some() => {
                     let e = self.tail(s).unwrap();
                     // `A.load(ord) + k`: read and return in one expression
@@ -440,7 +468,14 @@ impl<'a> Cx<'a> {
                     self.push(format!(".ret {r}"), e.span());
                     return Ok(self.rows);
                 }
-                _ => return self.bad("statement", s.span()),
+                _ => {
+                    return self.bad(
+                        "statement (known: `let x = A.load/fetch_*`, `let o = Ordering::X`, `fence(..);`, \
+                         `A.store(<old> ± k | literal, ..);`, `A.fetch_sub/add(n, ..);`, the CAS `while` loop, \
+                         `if <old> <cmp> c { …; return r; }`, a final `if … else …` or value)",
+                        s.span(),
+                    )
+                }
             }
         }
         self.bad("body without a final value", b.span())
@@ -592,6 +627,20 @@ pub fn generate(repo: &Repo) -> R<Vec<GenFile>> {
     o += "/-- Methods of the impl that are `#[cfg(hipstr_verif)]` hooks and are not part of the protocol. -/\n";
     o += "def hooks : List (String × String) := [\n";
     table(&mut o, hooks.iter().map(|h| (format!("(\"{}\", \"{}\")", h.0, h.1), String::new())).collect());
+    o += "/-- Source line of every row of the step lists above, per method, in row order. -/\n";
+    o += "def rowSites : List (String × List String) := [\n";
+    let site_rows: Vec<(String, String)> = defs
+        .iter()
+        .filter_map(|d| match &d.3 {
+            Def::Steps(rows) => {
+                let lean = if d.0 == "is_unique" { "isUnique" } else { d.0.as_str() };
+                let locs: Vec<String> = rows.iter().map(|r| format!("\"{}\"", r.loc)).collect();
+                Some((format!("(\"{lean}\", [{}])", locs.join(", ")), String::new()))
+            }
+            Def::One(..) => None,
+        })
+        .collect();
+    table(&mut o, site_rows);
     o += "end HipVerif.Gen.Atomics\n";
     Ok(vec![GenFile { name: "Atomics.lean".into(), content: o }])
 }
